@@ -76,9 +76,9 @@ theorem C09_terminates (s s' : St) (as : List Act) (hr : Reachable s) (ht : s.tr
 (the close error `readLoop` left with, or EOF if the peer had reset the stream), never success; a write — the
 not-established error once the association is closed or shutting down; a blocked blocking-write that is released —
 re-tests the state (and then fails as before) or hits its deadline; `AcceptStream` — EOF; `Shutdown` begun after the
-end — its non-established error. **Deviation from the literal statement, mirrored as it is:** a `Shutdown` that is
-already waiting returns `nil` as soon as `closeWriteLoopCh` is closed — also when that happened because of Close, Abort
-or a transport failure rather than because the shutdown sequence completed (`C09_shutdown_nil_witness`). -/
+end — its non-established error; a `Shutdown` that is already waiting — `nil` ONLY if the peer's SHUTDOWN-ACK or
+SHUTDOWN-COMPLETE had been handled (`sdAcked`), otherwise the shutdown-incomplete error (or the context's error).
+See `C09_shutdown_interrupted`. -/
 theorem C09_results (s s' : St) (i arm : Nat) (c : Caller) (k : Kind) (r : Res)
     (hc : s.callers[i]? = some c) (h : step choreoOfFacts s (.call i arm) = some s') (hf : s'.callers[i]? = some (.fin k r)) :
     match c with
@@ -87,12 +87,31 @@ theorem C09_results (s s' : St) (i arm : Nat) (c : Caller) (k : Kind) (r : Res)
     | .wrWait => r = .err .ctx
     | .accWait => r = .eof
     | .shBegin => r = .err .shutdownNonEstablished
-    | .shWait => (r = .nil ∧ s.cw = true) ∨ r = .err .ctx
+    | .shWait => (r = .nil ∧ s.cw = true ∧ s.sdAcked = true) ∨ (r = .err .shutdownIncomplete ∧ s.cw = true ∧ s.sdAcked = false) ∨ r = .err .ctx
     | .cl _ => r = .ok
     | .ab _ _ => r = .ok
     | _ => False := by
   rw [C09_choreography_matches_code] at h
   exact call_result s s' i arm c k r hc h hf
+
+/-- **A Shutdown that a teardown cuts short returns an error.** The completion flag is raised by nothing but the handling
+of the peer's SHUTDOWN-ACK or SHUTDOWN-COMPLETE; a waiting `Shutdown` that returns while the flag is down — i.e. whenever
+Close, Abort, an inbound ABORT or a transport failure ended the association before the peer acknowledged the SHUTDOWN —
+returns an error (shutdown-incomplete, or the context's), never `nil`. -/
+theorem C09_shutdown_interrupted :
+    (∀ s s' a, step choreoOfFacts s a = some s' → s'.sdAcked = true →
+      s.sdAcked = true ∨ (a = .rlHandle ∧ (s.rl = .handling .shutdownAck ∨ s.rl = .handling .shutdownComplete))) ∧
+    (∀ s s' i arm r, s.callers[i]? = some .shWait → s.sdAcked = false → step choreoOfFacts s (.call i arm) = some s' →
+      s'.callers[i]? = some (.fin .sh r) → r.isFailure = true) := by
+  rw [C09_choreography_matches_code]
+  refine ⟨fun s s' a h hs => sdAcked_only_by_peer s s' a h hs, ?_⟩
+  intro s s' i arm r hc hsa h hf
+  have := call_result s s' i arm _ .sh r hc h hf
+  simp only at this
+  rcases this with ⟨_, _, h1⟩ | ⟨rfl, _⟩ | rfl
+  · rw [hsa] at h1; cases h1
+  · rfl
+  · rfl
 
 /-- the constructor: once a teardown has closed `readLoopCloseCh` it returns "closed before connected", a cancelled
 context makes it run `Close()` and return the context's error; only the hand-over from `completeHandshake` yields success
@@ -104,15 +123,21 @@ theorem C09_results_constructor (s : St) (hr : Reachable s) (r : Res) (h : s.cn 
   · exact Or.inr (hi.cnRc r h hh)
   · exact Or.inl ⟨rfl, (hi.cnHs r h hh).1⟩
 
-/-- the literal "error or EOF" fails for a waiting `Shutdown`: two callers — a reader and a `Shutdown` — on an established
-association, the transport fails; the reader gets the transport error, `Shutdown` returns nil although no shutdown
-sequence ever ran -/
-theorem C09_shutdown_nil_witness :
+/-- regression for the former finding K09-shutdown-nil (fixed in /repo 52b27be): two callers — a reader and a `Shutdown` —
+on an established association, the transport fails; the reader gets the transport error and `Shutdown`, whose sequence
+never ran, now gets the shutdown-incomplete error instead of nil … -/
+theorem C09_shutdown_error_regression :
     (run choreoOfFacts { fuel := 9, callers := [.idle (.rd 1), .idle .sh] }
       [.envPacket (.hsFinal false), .rlHandle, .rlCH 0, .envStart 0, .envStart 1, .call 1 0, .envReadFail,
        .rlReadErr, .rlDefer, .call 1 0, .rlDefer, .rlDefer, .rlDefer, .call 0 0]).map (·.callers) =
-    some [.fin (.rd 1) (.err .transport), .fin .sh .nil] := by
+    some [.fin (.rd 1) (.err .transport), .fin .sh (.err .shutdownIncomplete)] := by
   rw [C09_choreography_matches_code]; decide
+
+/-- … while a shutdown the peer has acknowledged still ends with nil (non-vacuity of the nil branch) -/
+example :
+    (run Choreo.expected { fuel := 9, callers := [.idle .sh] }
+      [.envPacket (.hsFinal false), .rlHandle, .rlCH 0, .envStart 0, .call 0 0, .envPacket .shutdownAck, .rlHandle,
+       .envPacket .shutdownComplete, .rlHandle, .call 0 0]).map (·.callers) = some [.fin .sh .nil] := by decide
 
 /-- **(d) No write after close.** In every reachable state at most ONE `netConn.Write` has been issued after
 `netConn.Close()` (the one that was in flight or next in `writeLoop`'s batch), and after it `writeLoop` is on its exit
@@ -171,6 +196,35 @@ theorem C09_abort_carries_cause :
     have h3' : sid ∉ s.gone := by simpa using h3
     simp [readRes, h2, h3'] at this
     exact this
+
+/-- **(g) The terminal read error is sticky.** Once `readLoop` has unregistered the streams with its close error, no step
+of any process and no event of the environment — in particular no read deadline that was armed earlier and expires only
+now (`envDeadline`), while no read is blocked — changes what a read on any stream returns (the close error, or EOF for a
+stream the peer had reset), and no stream ever loses its terminal error (`lost = []`); so a reader that comes back later,
+whatever deadline it sets first, gets that error at once (`C09_no_stuck_state`). Tie: the helper goroutine of
+`SetReadDeadline` stores the deadline error only `if s.readErr == nil` (`Choreo.dlKeepsTerminal`, read off `Gen.lockEvents`). -/
+theorem C09_terminal_error_sticky (s s' : St) (a : Act) (hr : Reachable s) (hu : s.unreg = true)
+    (h : step choreoOfFacts s a = some s') :
+    s'.unreg = true ∧ s'.lost = [] ∧ ∀ sid, readRes s' sid = readRes s sid := by
+  rw [C09_choreography_matches_code] at h
+  obtain ⟨h1, h2, h3, h4⟩ := terminal_sticky s s' a (reachable_inv hr) hu h
+  exact ⟨h1, h4, fun sid => by simp [readRes, h2, h3]⟩
+
+def idleDeadlineRun (ch : Choreo) : Option St :=
+  (run ch { fuel := 9, callers := [.idle (.rd 1)] }
+    [.envPacket (.hsFinal false), .rlHandle, .rlCH 0, .envPacket (.abort "why"), .rlHandle]).map fun s =>
+  let t := runGreedy ch 40 s                        -- the teardown runs to its end; nobody is reading
+  match run ch t [.envDeadline 1, .envStart 0] with -- the old deadline expires; the application reads again
+  | some u => runGreedy ch 5 u
+  | none => t
+
+/-- a deadline armed while nobody reads, peer ABORT, late expiry, then a read: it returns the abort cause … -/
+example : ((idleDeadlineRun Choreo.expected).map fun t => (t.done, t.callers)) =
+    some (true, [.fin (.rd 1) (.err (.abort "why"))]) := by decide
+
+/-- … and if the helper stored the deadline error unconditionally, the reader would be parked for ever -/
+example : ((idleDeadlineRun { Choreo.expected with dlKeepsTerminal := false }).map fun t =>
+    (t.stuck { Choreo.expected with dlKeepsTerminal := false }, t.callers)) = some (true, [.rdWait 1 true]) := by decide
 
 /-! ## non-vacuity, and what the tie buys -/
 
